@@ -2852,7 +2852,8 @@ XPath::locationPathPattern(
 {
     eMatchScore score = eMatchScoreNone;
 
-    stepPattern(executionContext, &context, opPos + 2, score);
+    // stopPos == patternStartPos: match the whole pattern.
+    stepPattern(executionContext, &context, opPos + 2, score, opPos + 2, opPos + 2);
 
     return score;
 }
@@ -3106,12 +3107,20 @@ XPath::stepPattern(
             XPathExecutionContext&  executionContext,
             XalanNode*              context, 
             OpCodeMapPositionType   opPos,
-            eMatchScore&            scoreHolder) const
+            eMatchScore&            scoreHolder,
+            OpCodeMapPositionType   patternStartPos,
+            OpCodeMapPositionType   stopPos) const
 {
+    // patternStartPos is the position of the first step of the location path
+    // pattern.  The steps from opPos up to, but not including, stopPos are
+    // matched (all of them, if stopPos == patternStartPos).
     const XPathExpression&  currentExpression = getExpression();
 
     const OpCodeMapPositionType     endStep = currentExpression.getNextOpCodePosition(opPos);
-    OpCodeMapValueType              nextStepType = currentExpression.getOpCodeMapValue(endStep);
+    OpCodeMapValueType              nextStepType =
+        endStep == stopPos ?
+            OpCodeMapValueType(XPathExpression::eENDOP) :
+            currentExpression.getOpCodeMapValue(endStep);
 
     bool    fDoPredicates = true;
 
@@ -3122,7 +3131,9 @@ XPath::stepPattern(
                         executionContext,
                         context,
                         endStep,
-                        scoreHolder);
+                        scoreHolder,
+                        patternStartPos,
+                        stopPos);
 
         if(0 == context)
         {
@@ -3146,6 +3157,8 @@ XPath::stepPattern(
         if(0 == context)
         {
             // !!!!!!!!!!!!! Big ugly return here !!!!!!!!!!!!!!!!!!!
+            scoreHolder = eMatchScoreNone;
+
             return 0;
         }
     }
@@ -3235,34 +3248,6 @@ XPath::stepPattern(
             {
                 score = eMatchScoreOther;
             }
-            else
-            {
-                const OpCodeMapPositionType     prevPos = currentExpression.getNextOpCodePosition(startOpPos);      
-                const OpCodeMapValueType        prevStepType = currentExpression.getOpCodeMapValue(prevPos);
-
-                if (eMatchScoreNone == score  && 
-                    (prevStepType == XPathExpression::eMATCH_ANY_ANCESTOR ||
-                     prevStepType == XPathExpression::eMATCH_ANY_ANCESTOR_WITH_PREDICATE))
-                {
-                    const NodeTester    theTester(
-                                    *this,
-                                    executionContext,
-                                    opPos,
-                                    argLen,
-                                    stepType);
-
-                    while(0 != context)
-                    {
-                        score =
-                            theTester(*context, context->getNodeType());
-
-                        if(eMatchScoreNone != score)
-                            break;
-
-                        context = DOMServices::getParentOfNode(*context);
-                    }
-                }
-            }
         }
         break;
 
@@ -3333,7 +3318,36 @@ XPath::stepPattern(
                                 score);
                         if (eMatchScoreNone != score)
                         {
-                            break;
+                            // This ancestor matches the step.  Any steps to the
+                            // left must match starting from its parent; if they
+                            // do not, a more distant ancestor may still do, so
+                            // keep looking instead of settling on the nearest one.
+                            if (startOpPos == patternStartPos)
+                            {
+                                break;
+                            }
+                            else
+                            {
+                                XalanNode* const    theParent =
+                                    DOMServices::getParentOfNode(*context);
+
+                                eMatchScore     leftScore = eMatchScoreOther;
+
+                                if (theParent != 0 &&
+                                    stepPattern(
+                                        executionContext,
+                                        theParent,
+                                        patternStartPos,
+                                        leftScore,
+                                        patternStartPos,
+                                        startOpPos) != 0 &&
+                                    leftScore != eMatchScoreNone)
+                                {
+                                    break;
+                                }
+
+                                score = eMatchScoreNone;
+                            }
                         }
                     }
 
